@@ -54,7 +54,12 @@ class DiagX(SDEFunction):
         super().__init__(m=dimension, d=dimension)
 
     def __call__(self, t: float, x: np.array) -> np.array:
-        return np.diag(x)
+        x = np.asarray(x)
+        if x.ndim == 3:
+            # stack of (column) vectors, one per coupled process: one diagonal matrix for each of them
+            return np.stack([np.diag(np.ravel(xi)) for xi in x])
+        # x is a column vector in the schemes: np.diag of a 2d array would extract its diagonal
+        return np.diag(np.ravel(x))
 
 
 class LiborSDEFunction(SDEFunction):
